@@ -73,3 +73,26 @@ package keystore
 //@ func (*KeystoreManagerForPoC).GetPublicKeyOrdinal
 //@   assert-at call newPoCAddress address-of-the-asked-key: arg0 == pubKey
 //@   assert-at return#3 ordinal-is-the-stored-derivation-index: result1 && result0 == mAddr.derivationPath.Index && mAddr == acctM.addrs[lastresult("EncodeAddress")]
+
+// ---- counters across export / import and lookup over several keystores (C06)
+//@ func fetchChildNum
+//@   assert-at call Get#1 external-counter-key: arg1 == externalChildNumName
+//@   assert-at call Get#2 internal-counter-key: arg1 == internalChildNumName
+//@   assert-at return#-1 internal-first-then-external: result0 == le32(lastresult("Get#2")) && result1 == le32(lastresult("Get#1")) && result2 == nil
+
+//@ func putLastIndex
+//@   assert-at call Put#1 external-counter-under-the-external-key: arg1 == externalChildNumName && le32(arg2) == exChildNum && len(arg2) == 4
+//@   assert-at call Put#2 internal-counter-under-the-internal-key: arg1 == internalChildNumName && le32(arg2) == inChildNum && len(arg2) == 4
+
+//@ func export
+//@   assert-at return#-1 exported-counters-are-the-stored-ones: result0.HDpath.InternalChildNum == lastresult("fetchChildNum", 0) && result0.HDpath.ExternalChildNum == lastresult("fetchChildNum", 1) && result0.HDpath.Account == lastresult("fetchAccountUsage")
+
+//@ func createManagerKeyScope
+//@   assert-at call putLastIndex imported-counters-stored-per-branch: arg1 == hdPath.ExternalChildNum && arg2 == hdPath.InternalChildNum
+//@   assert-at call Child#3 internal-keys-replayed-from-the-internal-branch-below-its-counter: arg0 == lastresult("Neuter#2") && arg1 < old(hdPath.InternalChildNum)
+//@   assert-at call Child#4 external-keys-replayed-from-the-external-branch-below-its-counter: arg0 == lastresult("Neuter#3") && arg1 < old(hdPath.ExternalChildNum)
+//@   loop * invariant counters-unchanged: hdPath.InternalChildNum == old(hdPath.InternalChildNum) && hdPath.ExternalChildNum == old(hdPath.ExternalChildNum)
+
+//@ func (*KeystoreManagerForPoC).GetPublicKeyOrdinal
+//@   loop * invariant none-of-the-visited-keystores-has-it: forall k string :: visited(k) ==> (kmc.managedKeystores[k] == nil || kmc.managedKeystores[k].addrs == nil || !has(kmc.managedKeystores[k].addrs, lastresult("EncodeAddress")))
+//@   assert-at return#-1 not-found-only-if-no-keystore-has-the-address: !result1 && (forall k string :: has(kmc.managedKeystores, k) ==> (kmc.managedKeystores[k] == nil || kmc.managedKeystores[k].addrs == nil || !has(kmc.managedKeystores[k].addrs, lastresult("EncodeAddress"))))
